@@ -69,6 +69,10 @@ def generate(tier, seed):
         n = "c03_latin1_atom_tag%d" % tag
         src.append(fn(n, "    latin1_atom(%d);" % tag))
         hs.append(H(n, "tag %d atom with one Latin-1 byte >= 0x80 decodes to the atom of that code point" % tag))
+    for tag in (115, 100):
+        n = "c03_latin1_atom2_tag%d" % tag
+        src.append(fn(n, "    latin1_atom2(%d);" % tag))
+        hs.append(H(n, "tag %d atom with two Latin-1 bytes >= 0x80 (incl. pairs that are well-formed UTF-8) decodes to the atom of those two code points" % tag))
     for k in (0, 1, 2):
         n = "c03_string_ext_%d" % k
         src.append(fn(n, "    string_ext::<%d>();" % k))
